@@ -171,41 +171,54 @@ LAYOUTS = ["c", "c", "f", "view"]
 def gen_util(tier, rng):
     n = 400 if tier == "thorough" else 36
     util_ops = ["preload", "vispre", "vis", "image", "tmmpre", "tmm", "data", "recon"]
-    shapes = None
+    first = None
     for i in range(n):
-        lattice = "quarter" if i % 2 else "sixteenth"
-        # batches come in sibling PAIRS with identical shapes (npix, K, P) and different contents: a result remembered
-        # under a key made of shapes only shows in the second batch of the pair
-        if i % 2 == 0 or shapes is None:
+        # batches come in sibling PAIRS with identical shapes (npix, K, P); the second batch keeps all ingredients of the first
+        # except ONE group (the linear arguments, or the grid / tables, or the baselines / noise): a result remembered under a
+        # key that omits that ingredient (shapes only, shapes + checksum of the matrix, ...) shows in the second batch
+        lattice = "quarter" if (i // 2) % 2 else "sixteenth"
+        if i % 2 == 0 or first is None:
             shapes = (rng.choice([0, 1, 2, 3, 5, 8, 12]), rng.choice([0, 1, 2, 3, 5, 8]), rng.choice([0, 1, 2, 3, 4]))
+            keep = set()
+        else:
+            shapes = first["shapes"]; keep = rng.choice([{"values"}, {"values", "uv"}, {"grid", "uv"}, {"grid", "values"}, set()])
         npix, K, P = shapes
         grid, uv = rgrid_uv(rng, npix, K, lattice)
-        base = {"grid": [Sv(g) for g in grid], "uv": [Sv(u) for u in uv], "lattice": lattice}
+        cur = {"shapes": shapes, "grid": [Sv(g) for g in grid], "uv": [Sv(u) for u in uv]}
+        def pick(name, group, make):
+            """ingredient [name] of this batch: the first batch's if its group is kept, else fresh"""
+            cur[name] = first[name] if group in keep and first is not None and name in first else make()
+            return cur[name]
+        if "grid" in keep: cur["grid"] = first["grid"]
+        if "uv" in keep: cur["uv"] = first["uv"]
+        base = {"grid": cur["grid"], "uv": cur["uv"], "lattice": lattice}
         for op in util_ops:
             d = dict(base, op=op, lay=rng.choice(LAYOUTS))
-            if op in ("vis",): d["img"] = Sv(rvals(rng, npix, sparse=(i % 3 == 0), e=rexp(rng)))
+            if op in ("vis",): d["img"] = pick("vis_img", "values", lambda: Sv(rvals(rng, npix, sparse=(i % 3 == 0), e=rexp(rng))))
             elif op in ("vispre", "tmmpre"):
                 d.pop("grid"); d.pop("uv")
                 d["K"] = K
-                d["preR"] = Sm([[Fraction(rng.randint(-4, 4)) for _ in range(K)] for _ in range(npix)])
-                d["preI"] = Sm([[Fraction(rng.randint(-4, 4)) for _ in range(K)] for _ in range(npix)])
-                if op == "vispre": d["img"] = Sv(rvals(rng, npix, sparse=(i % 3 == 0), e=rexp(rng)))
+                d["preR"] = pick(op + "R", "grid", lambda: Sm([[Fraction(rng.randint(-4, 4)) for _ in range(K)] for _ in range(npix)]))
+                d["preI"] = pick(op + "I", "grid", lambda: Sm([[Fraction(rng.randint(-4, 4)) for _ in range(K)] for _ in range(npix)]))
+                if op == "vispre": d["img"] = pick("vispre_img", "values", lambda: Sv(rvals(rng, npix, sparse=(i % 3 == 0), e=rexp(rng))))
                 else:
-                    d["P"] = P; d["M"] = Sm(rmat(rng, npix, P))
+                    d["P"] = P; d["M"] = pick("tmmpre_M", "values", lambda: Sm(rmat(rng, npix, P)))
             elif op == "image":
                 r = rng.random()
                 d["n"] = npix if r < 0.7 else (rng.randint(0, npix) if r < 0.85 else npix + rng.randint(1, 2))
-                d["vis"] = [Sv(v) for v in rcv(rng, K, e=rexp(rng))]
+                d["vis"] = pick("image_vis", "values", lambda: [Sv(v) for v in rcv(rng, K, e=rexp(rng))])
             elif op == "tmm":
-                d["P"] = P; d["M"] = Sm(rmat(rng, npix, P))
+                d["P"] = P; d["M"] = pick("tmm_M", "values", lambda: Sm(rmat(rng, npix, P)))
             elif op == "data":
                 e1, e2, e3 = rexp(rng), rexp(rng), rng.choice(NOISE_EXPS)
-                d = {"op": op, "P": P, "TM": [[Sv(c) for c in rcv(rng, P, e=e1)] for _ in range(K)],
-                     "vis": [Sv(v) for v in rcv(rng, K, e=e2)], "noise": [Sv(v) for v in rnoise(rng, K, e=e3)], "lay": d["lay"]}
+                d = {"op": op, "P": P, "TM": pick("data_TM", "grid", lambda: [[Sv(c) for c in rcv(rng, P, e=e1)] for _ in range(K)]),
+                     "vis": pick("data_vis", "values", lambda: [Sv(v) for v in rcv(rng, K, e=e2)]),
+                     "noise": pick("data_noise", "uv", lambda: [Sv(v) for v in rnoise(rng, K, e=e3)]), "lay": d["lay"]}
             elif op == "recon":
-                d = {"op": op, "P": P, "TM": [[Sv(c) for c in rcv(rng, P, e=rexp(rng))] for _ in range(K)],
-                     "s": Sv(rvals(rng, P, e=rexp(rng))), "lay": d["lay"]}
+                d = {"op": op, "P": P, "TM": pick("recon_TM", "grid", lambda: [[Sv(c) for c in rcv(rng, P, e=rexp(rng))] for _ in range(K)]),
+                     "s": pick("recon_s", "values", lambda: Sv(rvals(rng, P, e=rexp(rng)))), "lay": d["lay"]}
             yield d
+        if i % 2 == 0: first = cur
 
 def gen_class(tier, rng):
     m = 500 if tier == "thorough" else 32
@@ -316,21 +329,73 @@ def gen_hist_one(rng, h=0):
     def add_tr(mk, uk, preload):
         trs.append({"mask": mk, "uv": uk, "live": True, "npix": npix_of(masks[mk]["m"]), "K": len(uvs[uk]), "geom": masks[mk]})
         steps.append({"s": "new", "mask": mk, "uv": uk, "preload": preload})
+    nid = [0]; last = {}; e_h = rexp(rng); called = set()
+    def call(i, k, vals=None, mode=None, first=None):
+        t = trs[i]; npix, Kt = t["npix"], t["K"]; nid[0] += 1
+        st = {"s": k, "t": i, "id": nid[0]}
+        if first is not None and mode in ("equal", "edit1", "rot") and rng.random() < 0.6:
+            st["reuse"] = first["id"]                  # equal: the very same object again; edit1 / rot: edited in place
+        if k == "vis":
+            key = ("vis", npix); e = e_h if rng.random() < 0.6 else rexp(rng)
+            if vals is None:
+                if key in last and rng.random() < 0.5: vals = last[key]
+                else: vals = Sv(rvals(rng, npix, sparse=rng.random() < 0.3, e=e))
+            st.update(img=vals, how=rng.choice(["slim", "native", "store_native", "sum", "scaled"]), own_mask=rng.random() < 0.5)
+        elif k == "tmm":
+            if vals is None:
+                P = rng.choice([1, 2, 2, 3]); key = ("tmm", npix, P)
+                if key in last and rng.random() < 0.5: vals = last[key]
+                else: vals = Sm(rmat(rng, npix, P))
+            else: P = first["P"]; key = ("tmm", npix, P)
+            st.update(P=P, M=vals, how=rng.choice(["c", "f", "view"]))
+        else:
+            key = ("image", Kt)
+            if vals is None:
+                if key in last and rng.random() < 0.5: vals = last[key]
+                else: vals = [Sv(v) for v in rcv(rng, Kt, e=e_h if rng.random() < 0.6 else rexp(rng))]
+            st.update(vis=vals, how=rng.choice(["fresh", "sum"]))
+        last[key] = vals
+        return st
+    def emit_calls():
+        """calls of every live transformer not called yet.  Per transformer: 1-3 kinds of call, often DOUBLED (a second call
+        through the same object with a sibling argument: the same array object again, the same object edited in place, a
+        rotation / negation / rescaling of the values, equal values in a new object).  First calls often take the values a
+        sibling transformer was given.  The per-transformer sequences are merged at random (interleaved)."""
+        seqs = []
+        for i, t in enumerate(trs):
+            if not t["live"] or i in called: continue
+            called.add(i); seq = []
+            kinds = rng.sample(["vis", "tmm", "image"], rng.choice([1, 2, 2, 3]))
+            if "image" in kinds and len(kinds) == 1: kinds.append(rng.choice(["vis", "tmm"]))    # image_from alone never reads the tables
+            for k in kinds:
+                first = call(i, k); seq.append(first)
+                if rng.random() < 0.5:
+                    v0 = first["img"] if k == "vis" else first["M"] if k == "tmm" else first["vis"]
+                    mode, v1 = sibling_values(rng, k, v0)
+                    seq.append(call(i, k, vals=v1, mode=mode, first=first))
+            seqs.append(seq)
+        while any(seqs):
+            q = rng.choice([q for q in seqs if q]); steps.append(q.pop(0))
     mk, uk = add_mask(g0), add_uv(uv0)
     pre0 = rng.random() < 0.75
     add_tr(mk, uk, pre0)
     nsib = rng.choice([1, 2, 2, 3])
+    edit_at = rng.randrange(nsib) if h % 3 == 1 else None      # at most one in-place edit of a caller's object per history
     for si in range(nsib):
-        src = rng.randrange(len(trs)); g = masks[trs[src]["mask"]]; uv = uvs[trs[src]["uv"]]
+        src = rng.randrange(len(trs)) if si else 0
+        if not trs[src]["live"]: src = max(i for i, t in enumerate(trs) if t["live"])
+        g = masks[trs[src]["mask"]]; uv = uvs[trs[src]["uv"]]
         # the first sibling's kind goes round-robin over the histories so that every ingredient is varied alone several times
         kind = SIB_KINDS[h % len(SIB_KINDS)] if si == 0 else rng.choice(SIB_KINDS)
+        if si == edit_at and kind not in MASK_KINDS[:5] + ("uv_one", "uv_rev", "uv_neg"): kind = rng.choice(["shift", "move1", "uv_one"])
         pre = pre0 if si == 0 or rng.random() < 0.75 else (not pre0)
         mk, uk = trs[src]["mask"], trs[src]["uv"]
         if kind in MASK_KINDS:
             g2 = dict(g, m=mask_variant(rng, g["m"], kind))
             same_shape = (len(g2["m"]), len(g2["m"][0])) == (len(g["m"]), len(g["m"][0]))
-            edit = mk if same_shape and rng.random() < 0.3 else None     # in-place edit of the caller's Mask2D, then a new transformer
-            mk = add_mask(g2, edit)
+            if si == edit_at and same_shape:      # the caller edits ITS Mask2D in place, then builds the next transformer from it
+                emit_calls(); mk = add_mask(g2, mk)
+            else: mk = add_mask(g2)
         elif kind == "scales":
             g2 = dict(g, sy=g["sx"], sx=g["sy"]) if g["sy"] != g["sx"] else dict(g, sx=S(F(g["sx"]) * 2))
             mk = add_mask(g2)
@@ -343,53 +408,13 @@ def gen_hist_one(rng, h=0):
                 k = rng.randrange(len(uv2)); uv2[k] = [S(F(uv2[k][0]) + rng.choice([-3, 1, 1000])), uv2[k][1]]
             elif kind == "uv_rev": uv2 = uv2[::-1] if len(uv2) > 1 and uv2 != uv2[::-1] else [[u[1], u[0]] for u in uv2]
             else: uv2 = [[S(-F(u[0])), S(-F(u[1]))] for u in uv2]
-            uk = add_uv(uv2, uk if rng.random() < 0.3 else None)
+            if si == edit_at:
+                emit_calls(); uk = add_uv(uv2, uk)
+            else: uk = add_uv(uv2)
         elif kind == "preload": pre = not pre0
         elif kind == "same" and rng.random() < 0.5: mk = add_mask(dict(g))     # an equal but distinct Mask2D object
         add_tr(mk, uk, pre)
-    # calls.  Per live transformer: 1-3 kinds of call, often DOUBLED (a second call through the same object with a sibling
-    # argument: the same array object again, the same object edited in place, a rotation / negation / rescaling of the
-    # values, equal values in a new object).  First calls often take the values a sibling transformer was given.
-    live = [i for i, t in enumerate(trs) if t["live"]]
-    nid = [0]; last = {}; e_h = rexp(rng)
-    def call(i, k, vals=None, mode=None, first=None):
-        t = trs[i]; npix, Kt = t["npix"], t["K"]; nid[0] += 1
-        st = {"s": k, "t": i, "id": nid[0]}
-        if first is not None and mode in ("equal", "edit1", "rot") and rng.random() < 0.6:
-            st["reuse"] = first["id"]                  # equal: the very same object again; edit1 / rot: edited in place
-        if k == "vis":
-            key = ("vis", npix); e = e_h if rng.random() < 0.6 else rexp(rng)
-            if vals is None:
-                if key in last and rng.random() < 0.5: vals = last[key][0]
-                else: vals = Sv(rvals(rng, npix, sparse=rng.random() < 0.3, e=e))
-            st.update(img=vals, how=rng.choice(["slim", "native", "store_native", "sum", "scaled"]), own_mask=rng.random() < 0.5)
-        elif k == "tmm":
-            if vals is None:
-                P = rng.choice([1, 2, 2, 3]); key = ("tmm", npix, P)
-                if key in last and rng.random() < 0.5: vals = last[key][0]
-                else: vals = Sm(rmat(rng, npix, P))
-            else: P = first["P"]; key = ("tmm", npix, P)
-            st.update(P=P, M=vals, how=rng.choice(["c", "f", "view"]))
-        else:
-            key = ("image", Kt)
-            if vals is None:
-                if key in last and rng.random() < 0.5: vals = last[key][0]
-                else: vals = [Sv(v) for v in rcv(rng, Kt, e=e_h if rng.random() < 0.6 else rexp(rng))]
-            st.update(vis=vals, how=rng.choice(["fresh", "sum"]))
-        last[key] = (vals,)
-        return st
-    seqs = []
-    for i in live:
-        seq = []
-        for k in rng.sample(["vis", "tmm", "image"], rng.choice([1, 2, 2, 3])):
-            first = call(i, k); seq.append(first)
-            if rng.random() < 0.6:
-                v0 = first["img"] if k == "vis" else first["M"] if k == "tmm" else first["vis"]
-                mode, v1 = sibling_values(rng, k, v0)
-                seq.append(call(i, k, vals=v1, mode=mode, first=first))
-        seqs.append(seq)
-    while any(seqs):                                    # random merge, per-transformer order kept
-        q = rng.choice([q for q in seqs if q]); steps.append(q.pop(0))
+    emit_calls()
     return {"op": "hist", "steps": steps}
 
 def gen_hist(tier, rng):
